@@ -143,10 +143,10 @@ theorem C19_currency_load_total (py : Py) (dtext : Str) (dflt : Table) (st : FSt
 
 /-- **C19, the registration loop never asserts**: whatever rows the currency table has (clashing names, symbols,
     plurals, special signs, duplicates, non-positive or NaN rates) and whatever units are registered before,
-    every `register_unit` call the loop makes passes its three assertions. -/
-theorem C19_registration_total (specialNames specialSymbols : List (Str × Str)) (t : Table) (units0 : Reg) :
-    ∃ r, registerAll specialNames specialSymbols units0 t = .ok r :=
-  registerAll_ok specialNames specialSymbols t units0
+    every `register_unit` call the loop makes passes its three assertions (for any NFKD normaliser). -/
+theorem C19_registration_total (nfkd : Str → Str) (specialNames specialSymbols : List (Str × Str)) (t : Table)
+    (units0 : Reg) : ∃ r, registerAll nfkd specialNames specialSymbols units0 t = .ok r :=
+  registerAll_ok nfkd specialNames specialSymbols t units0
 
 /-- the history lines `readline_load_history` hands to readline -/
 def C19.historyOf (py : Py) (enabled : Bool) (st : FState) : List Str :=
@@ -160,16 +160,6 @@ def C19.historyOf (py : Py) (enabled : Bool) (st : FState) : List Str :=
     | _ => []
   else []
 
-theorem C19.readlineLoadHistory_spec (ls : List Str) :
-    readlineLoadHistory genGuard ls = .ok ((ls.map strip).filter (fun l => !l.contains 0)) := by
-  induction ls with
-  | nil => rfl
-  | cons l ls ih =>
-    unfold readlineLoadHistory
-    by_cases h : 0 ∈ strip l
-    · simp [h, genGuard_soft.addHistory, ih]
-    · simp [h, ih]
-
 /-- **C19, main clause**: for ALL states of the three files — 5³ shapes (missing / directory / cannot be opened /
     opens but cannot be read / bytes) × all byte contents — any decoder and `float()`, any previously registered
     units, in one-shot and in interpreter mode, start-up reaches `running`:
@@ -177,6 +167,7 @@ theorem C19.readlineLoadHistory_spec (ls : List Str) :
       could not be read;
     * the currency table is the file's when it parses, else the built-in one;
     * the base currency is the configured one if the table has it, else the default one if present, else none;
+    * without a base currency no currency unit is registered; with one, the registration loop ran over that table;
     * the history is what could be read (NUL lines dropped), empty otherwise;
     * everything printed is one of the two warnings (currency fall-back, history could not be loaded). -/
 theorem C19_startup (py : Py) (dflt : Table) (units0 : Reg) (cfg cur hist : FState) (mode : Mode)
@@ -186,7 +177,9 @@ theorem C19_startup (py : Py) (dflt : Table) (units0 : Reg) (cfg cur hist : FSta
       r.table = (C19.fileTable py cur).getD dflt ∧
       r.fileTableUsed = (C19.fileTable py cur).isSome ∧
       r.base = baseCurrency (getStr genConsts.props r.config kBaseCurrency) genConsts.defaultBase r.table ∧
-      (r.base = none → r.reg.units = units0.units) ∧
+      (match r.base with
+        | none => r.reg = units0
+        | some _ => registerAll py.nfkd genConsts.specialNames genConsts.specialSymbols units0 r.table = .ok r.reg) ∧
       r.history = (match mode with
         | .oneShot => []
         | .interpreter => C19.historyOf py (getBool r.config kSaveHistory true) hist) ∧
@@ -221,7 +214,7 @@ theorem C19_startup (py : Py) (dflt : Table) (units0 : Reg) (cfg cur hist : FSta
   have hbase : getStr genConsts.props c1 kBaseCurrency = getStr genConsts.props c2 kBaseCurrency := by
     simp only [getStr, s1, s2]
   -- registration
-  obtain ⟨regAll, hreg⟩ := registerAll_ok genConsts.specialNames genConsts.specialSymbols
+  obtain ⟨regAll, hreg⟩ := registerAll_ok py.nfkd genConsts.specialNames genConsts.specialSymbols
     ((C19.fileTable py cur).getD dflt) units0
   -- history
   have hhist : ∀ enabled, ∃ w3, loadHistory genGuard py enabled hist = .ok
@@ -254,13 +247,13 @@ theorem C19_startup (py : Py) (dflt : Table) (units0 : Reg) (cfg cur hist : FSta
     simp only [hc2]
     cases mode with
     | oneShot =>
-      refine ⟨_, rfl, s2, rfl, rfl, ?_, fun _ => rfl, rfl, ?_⟩
+      refine ⟨_, rfl, s2, rfl, rfl, ?_, by simp only, rfl, ?_⟩
       · simp only [← hbase, hb]
       · intro w hw; rcases hwcur with h | h <;> simp [h] at hw; exact Or.inl hw
     | interpreter =>
       obtain ⟨w3, hh, hw3⟩ := hhist (getBool c2 kSaveHistory true)
-      simp only [hh, C19.readlineLoadHistory_spec]
-      refine ⟨_, rfl, s2, rfl, rfl, ?_, fun _ => rfl, ?_, ?_⟩
+      simp only [hh, readlineLoadHistory_spec genGuard_soft.addHistory]
+      refine ⟨_, rfl, s2, rfl, rfl, ?_, by simp only, ?_, ?_⟩
       · simp only [← hbase, hb]
       · simp only [C19.historyOf]
         cases getBool c2 kSaveHistory true <;> simp
@@ -276,14 +269,14 @@ theorem C19_startup (py : Py) (dflt : Table) (units0 : Reg) (cfg cur hist : FSta
     | oneShot =>
       refine ⟨_, rfl, s2, rfl, rfl, ?_, ?_, rfl, ?_⟩
       · simp only [← hbase, hb]
-      · intro h; cases h
+      · simp only; exact hreg
       · intro w hw; rcases hwcur with h | h <;> simp [h] at hw; exact Or.inl hw
     | interpreter =>
       obtain ⟨w3, hh, hw3⟩ := hhist (getBool c2 kSaveHistory true)
-      simp only [hh, C19.readlineLoadHistory_spec]
+      simp only [hh, readlineLoadHistory_spec genGuard_soft.addHistory]
       refine ⟨_, rfl, s2, rfl, rfl, ?_, ?_, ?_, ?_⟩
       · simp only [← hbase, hb]
-      · intro h; cases h
+      · simp only; exact hreg
       · simp only [C19.historyOf]
         cases getBool c2 kSaveHistory true <;> simp
         cases hist <;> simp
